@@ -5,3 +5,4 @@ from . import c_version     # noqa
 from . import c_loader      # noqa
 from . import c_read        # noqa
 from . import c_header      # noqa
+from . import c_cropping    # noqa
